@@ -426,9 +426,20 @@ func exhaustiveC12(thorough bool, emit func(C12Case) bool) {
 			return
 		}
 	}
-	for i, n := range sizeLadder {
+	for i, n := range sizeLadderLinear {
 		if !emit(C12Case{Src: realDNA(n, i, true, true), K: []int{3, 21, 31}[i%3], Dst: gen.B("x"), Spare: i % 4}) {
 			return
+		}
+		// the same with one foreign byte (the panic must come whatever block the byte is in), each
+		// followed by a valid call of the same size
+		if n >= 4095 {
+			for j, pos := range foreignPositions(n) {
+				bad := realDNA(n, i, true, true)
+				bad[pos] = "x\x00U-\xff@"[j%6]
+				if !emit(C12Case{Src: bad, K: n + 1}) || !emit(C12Case{Src: realDNA(n, i+j+1, true, false), K: n + 1}) {
+					return
+				}
+			}
 		}
 	}
 	// megabase sequences (beyond any threshold for working in pieces or in parallel): valid, and
